@@ -72,6 +72,9 @@ pub struct Config {
     /// of the Announce arrivals each node sees in steady state
     #[serde(default)]
     pub critical_phase_ns: Option<Vec<u64>>,
+    /// (node, port) configured masterOnly: ports that face away from the grandmaster
+    #[serde(default)]
+    pub master_only: Vec<(usize, usize)>,
 }
 
 fn node_spec(c: &Config, i: usize) -> NodeSpec {
@@ -94,7 +97,7 @@ fn node_spec(c: &Config, i: usize) -> NodeSpec {
         n.class = 7 + r;
     }
     n.slave_only = c.slave_only_node == Some(i);
-    n.ports = (0..c.topo.ports[i]).map(|_| PortSpec { log_sync: 3, ..Default::default() }).collect();
+    n.ports = (0..c.topo.ports[i]).map(|p| PortSpec { log_sync: 3, master_only: c.master_only.contains(&(i, p)), ..Default::default() }).collect();
     n
 }
 
@@ -299,17 +302,17 @@ pub fn configs(tier: Tier) -> Vec<Config> {
                 }
                 let phase_sets: Vec<Vec<u8>> = if tier == Tier::Thorough { vec![vec![0; n], (0..n).map(|i| (i % 3) as u8).collect(), (0..n).map(|i| ((2 * i + 1) % 3) as u8).collect()] } else { vec![vec![0; n], (0..n).map(|i| ((i + 1) % 3) as u8).collect()] };
                 for phases in phase_sets {
-                    out.push(Config { topo: t.clone(), order: order.clone(), rank_by, best_low_class: false, low_class_node: None, slave_only_node: None, phases: phases.clone(), critical_phase_ns: None });
+                    out.push(Config { topo: t.clone(), order: order.clone(), rank_by, best_low_class: false, low_class_node: None, slave_only_node: None, phases: phases.clone(), critical_phase_ns: None, master_only: vec![] });
                     if rank_by == RankBy::Priority1 {
-                        out.push(Config { topo: t.clone(), order: order.clone(), rank_by, best_low_class: true, low_class_node: None, slave_only_node: None, phases: phases.clone(), critical_phase_ns: None });
+                        out.push(Config { topo: t.clone(), order: order.clone(), rank_by, best_low_class: true, low_class_node: None, slave_only_node: None, phases: phases.clone(), critical_phase_ns: None, master_only: vec![] });
                         // a non-best leaf with clockClass < 128, a slave-only leaf
                         for i in 0..n {
                             if t.ports[i] == 1 && order[i] != 0 {
-                                out.push(Config { topo: t.clone(), order: order.clone(), rank_by, best_low_class: false, low_class_node: Some(i), slave_only_node: None, phases: phases.clone(), critical_phase_ns: None });
+                                out.push(Config { topo: t.clone(), order: order.clone(), rank_by, best_low_class: false, low_class_node: Some(i), slave_only_node: None, phases: phases.clone(), critical_phase_ns: None, master_only: vec![] });
                                 // a slave-only instance is configured as the worst clock (IEEE 1588 gives it
                                 // clockClass 255): one that outranks every master never synchronises to anybody
                                 if order[i] == n - 1 {
-                                    out.push(Config { topo: t.clone(), order: order.clone(), rank_by, best_low_class: false, low_class_node: None, slave_only_node: Some(i), phases: phases.clone(), critical_phase_ns: None });
+                                    out.push(Config { topo: t.clone(), order: order.clone(), rank_by, best_low_class: false, low_class_node: None, slave_only_node: Some(i), phases: phases.clone(), critical_phase_ns: None, master_only: vec![] });
                                 }
                             }
                         }
@@ -338,6 +341,33 @@ pub fn configs(tier: Tier) -> Vec<Config> {
         let mut c2 = c.clone();
         c2.critical_phase_ns = Some(phases);
         out.push(c2);
+    }
+    // masterOnly ports: every port of a boundary clock that ends up MASTER or PASSIVE in the default
+    // execution faces away from the grandmaster and may be configured masterOnly; the hierarchy
+    // that has to result is the same
+    let base: Vec<Config> = out
+        .iter()
+        .filter(|c| c.rank_by == RankBy::Priority1 && !c.best_low_class && c.low_class_node.is_none() && c.slave_only_node.is_none() && c.critical_phase_ns.is_none() && c.topo.ports.iter().any(|p| *p > 1))
+        .cloned()
+        .collect();
+    for c in base {
+        let spec = net_spec(&c, (T_CONV + WINDOW) / SEC + 1);
+        let res = simulate(&spec, &[], &mut Choices::default(), SEC);
+        let Some(last) = res.snapshots.last() else { continue };
+        let n = c.topo.ports.len();
+        let best = (0..n).find(|i| c.order[*i] == 0).unwrap();
+        for i in 0..n {
+            if i == best || c.topo.ports[i] < 2 {
+                continue;
+            }
+            for p in 0..c.topo.ports[i] {
+                if matches!(last.nodes[i].states[p], PS::Master | PS::Passive) {
+                    let mut c2 = c.clone();
+                    c2.master_only = vec![(i, p)];
+                    out.push(c2);
+                }
+            }
+        }
     }
     out
 }
@@ -374,6 +404,19 @@ pub enum FaultS {
 
 fn fault_scripts(c: &Config) -> Vec<FaultS> {
     let mut v = vec![];
+    if !c.master_only.is_empty() {
+        // with a masterOnly port only the scripts that end in the initial connectivity and
+        // attributes: elsewhere the new hierarchy may need that port as a slave port
+        for (si, seg) in c.topo.segments.iter().enumerate() {
+            for at in seg {
+                v.push(FaultS::DetachThenAttach(si, *at));
+            }
+        }
+        for i in 0..c.topo.ports.len() {
+            v.push(FaultS::SilenceThenUnsilence(i));
+        }
+        return v;
+    }
     for (si, seg) in c.topo.segments.iter().enumerate() {
         for at in seg {
             v.push(FaultS::Detach(si, *at));
